@@ -30,6 +30,10 @@ def compareStep (idx : Nat) (pre : World) (op : XOp) (wd : List (ValId × Coins)
   let (res, w') := xstep op { pre with oracle := wd }
   let mut out : List String := []
   let mres := rResult res
+  -- the model's integers are unbounded: an implementation step that panics with the fixed-point overflow (LegacyDec beyond
+  -- 315 bits, Int beyond 256) where the model does not is outside the arithmetic the model covers (mirrored only in weight
+  -- decay, D15/D18); the harness's C05 / C17 monitors judge it
+  if obsRes = "panic overflow" && mres ≠ obsRes then return [s!"step {idx} skip-overflow"]
   if mres ≠ obsRes then
     out := out ++ [s!"step {idx} diverge component=result model=[{mres}] impl=[{obsRes}]"]
   if w'.oracle.length ≠ 0 then
@@ -47,6 +51,9 @@ def compareStep (idx : Nat) (pre : World) (op : XOp) (wd : List (ValId × Coins)
     if obsRes = "ok" && wd.all (fun p => p.2.all (fun c => decide (0 ≤ c.2))) then
       for msg in theoremCheckC01 o pre post do
         out := out ++ [s!"step {idx} diverge component=theorem.C01 model=[{msg}] impl=[observed state]"]
+    -- the record stores are sorted and keyed before and after every step, whatever its outcome (KeepStores / KeepRK)
+    for (comp, msg) in theoremCheckStores pre post do
+      out := out ++ [s!"step {idx} diverge component={comp} model=[{msg}] impl=[observed state]"]
     -- INV-I / INV-R: the invariants of `reach_ix` / `reach_rx` on the observed states, `step_ix` / `step_rx` on the step
     if obsRes = "ok" then
       for (comp, msg) in theoremCheckInv pre post do
@@ -54,6 +61,9 @@ def compareStep (idx : Nat) (pre : World) (op : XOp) (wd : List (ValId × Coins)
       -- the money-side theorems (C02 conservation at the block boundary, C12 pool never debited, C04 other users untouched,
       -- C15 hop blocked) instantiated on this observed step
       for (comp, msg) in theoremCheckMoney o (wd.all (fun p => p.2.all (fun c => decide (0 ≤ c.2)))) pre post do
+        out := out ++ [s!"step {idx} diverge component={comp} model=[{msg}] impl=[observed state]"]
+      -- C13: every successful user operation settles the validator(s) involved first (Settles.lean)
+      for (comp, msg) in theoremCheckSettles o wd pre do
         out := out ++ [s!"step {idx} diverge component={comp} model=[{msg}] impl=[observed state]"]
   | .reimport =>
     -- the restart theorem (C18) instantiated on this observed export → wipe → import
